@@ -6,103 +6,89 @@
 #![feature(step_trait)]
 
 pub mod host {
-    use std::cmp;
-    use std::iter::Peekable;
-    use std::ops::{Add, RangeInclusive, Sub};
-    use std::time::Duration;
-    use venv::avec as vec;
-    use venv::chan::Sender;
-    use venv::collections::{BTreeMap, Vec};
-    use venv::eyre;
-    use venv::rangemap::{RangeInclusiveSet, StepLite};
-    use venv::sql::{Backend, ParamList, Row, RowSet, SqlTable, Val};
-    use venv::time::Instant;
-    use venv::{assert_always, debug, error, json, named_params, pid, trace, warn};
-    pub mod rusqlite {
-        pub use venv::sqlite::{Error, Result};
-    }
-    pub type Connection = venv::sql::Conn<Db>;
-
-    #[derive(Debug, Default, Clone, Copy, Eq, PartialEq, Ord, PartialOrd, Hash)]
-    pub struct ActorId(pub u8);
-    #[derive(Debug, Default, Clone, Copy, Eq, PartialEq, Ord, PartialOrd, Hash)]
-    pub struct Timestamp(pub u64);
-    #[derive(Debug, Clone, PartialEq)]
-    pub enum SyncMessage {
-        V1(SyncMessageV1),
-    }
-    #[derive(Debug, Clone, PartialEq)]
-    pub enum SyncMessageV1 {
-        Changeset(ChangeV1),
-    }
-    /// ABSTRACTION: a change row is {seq, estimated size, tag}
-    #[derive(Clone, Copy, Debug, PartialEq, Eq)]
-    pub struct Change {
-        pub seq: CrsqlSeq,
-        pub size: usize,
-        pub tag: u8,
-    }
-    impl Change {
-        pub fn estimated_byte_size(&self) -> usize {
-            self.size
-        }
-    }
-    /// stand-in for change::row_to_change: the model returns (seq, size, tag) columns
-    pub fn row_to_change(row: &Row) -> rusqlite::Result<Change> {
-        Ok(Change { seq: CrsqlSeq(row.get(0)?), size: row.get::<u64>(1)? as usize, tag: row.get::<u64>(2)? as u8 })
-    }
-    macro_rules! to_val_u64 {
-        ($($t:ident),*) => {$(
-            impl venv::sql::ToVal for $t {
-                fn to_val(&self) -> Val { Val::U64(self.0 as u64) }
-            }
-        )*};
-    }
-    to_val_u64!(ActorId, Timestamp, CrsqlDbVersion, CrsqlSeq);
-
-    include!("sliced/base.rs");
-    include!("sliced/change.rs");
-    include!("sliced/broadcast.rs");
-    include!("sliced/agent.rs");
-    include!("sliced/sync.rs");
-    include!("sliced/peer.rs");
-
-    /// model of __corro_buffered_changes for one (actor, version): which seqs have a buffered row
-    pub struct Db {
-        pub actor: ActorId,
-        pub version: u64,
-        pub rows: u32,
-        pub sizes: [usize; 8],
-    }
-    static SQL: SqlTable<1> = SqlTable::new([SQL_BUFFERED_RANGE]);
-    impl Backend for Db {
-        fn execute(&mut self, _sql: &'static str, _p: &ParamList) -> rusqlite::Result<usize> {
-            panic!("VENV-SQL: no write statement expected");
-        }
-        fn query(&mut self, sql: &'static str, p: &ParamList) -> rusqlite::Result<RowSet> {
-            assert!(SQL.classify(sql) == 0);
-            let u = |v: Val| match v {
-                Val::U64(x) => x,
-                _ => panic!("VENV-SQL: integer parameter expected"),
-            };
-            assert!(u(p.named(pid!(":actor_id"))) == self.actor.0 as u64 && u(p.named(pid!(":version"))) == self.version, "VENV-SQL: other actor/version");
-            let (a, b) = (u(p.named(pid!(":start_seq"))), u(p.named(pid!(":end_seq"))));
-            // WHERE ... seq BETWEEN :start_seq AND :end_seq ORDER BY seq ASC
-            let mut out = RowSet::empty();
-            let mut s = 0u64;
-            while s < 8 {
-                if self.rows & (1 << s) != 0 && a <= s && s <= b {
-                    out.push(&[Val::U64(s), Val::U64(self.sizes[s as usize] as u64), Val::U64(s)]);
-                }
-                s += 1;
-            }
-            Ok(out)
-        }
-    }
+    include!("host_body.rs");
+    include!("sliced/send.rs");
 
     #[cfg(kani)]
     mod proofs {
         use super::*;
         include!("proofs.rs");
+    }
+}
+
+/// Compositional variant for the per-change tier: the sliced answering statements run against a
+/// RECORDER in place of `send_change_chunks`, which notes what it was asked to stream — the rows
+/// the query produced and the `ChunkedChanges` it was handed (start, end, size limit).  That
+/// `send_change_chunks(ChunkedChanges::new(rows, start, end, ..))` puts exactly the tiling of
+/// [start, end] with exactly those rows on the wire is C08's claim, checked there on the same
+/// sliced functions.
+pub mod compose {
+    include!("host_body.rs");
+
+    #[derive(Clone, Copy)]
+    pub struct Call {
+        pub start: u64,
+        pub end: u64,
+        pub last_seq: u64,
+        pub rows: u32,
+        pub ascending: bool,
+        pub actor: u8,
+        pub version: u64,
+        pub max_buf_size: usize,
+    }
+    pub static mut CALLS: [Option<Call>; 3] = [None; 3];
+    pub static mut N_CALLS: usize = 0;
+    pub fn send_change_chunks<I: Iterator<Item = rusqlite::Result<Change>>>(
+        _sender: &Sender<SyncMessage>,
+        mut chunked: ChunkedChanges<I>,
+        actor_id: ActorId,
+        version: CrsqlDbVersion,
+        last_seq: CrsqlSeq,
+        _ts: Timestamp,
+    ) -> eyre::Result<()> {
+        let mut rows = 0u32;
+        let mut ascending = true;
+        let mut prev: Option<u64> = None;
+        let mut k = 0;
+        while k < SEQS {
+            match chunked.iter.next() {
+                Some(Ok(c)) => {
+                    if let Some(p) = prev {
+                        if c.seq.0 <= p {
+                            ascending = false;
+                        }
+                    }
+                    prev = Some(c.seq.0);
+                    if c.seq.0 < 32 {
+                        rows |= 1 << c.seq.0;
+                    }
+                }
+                Some(Err(_)) => return Err(eyre::Report),
+                None => break,
+            }
+            k += 1;
+        }
+        unsafe {
+            assert!(N_CALLS < 3, "VENV-CAPACITY: more send_change_chunks calls than the bound allows");
+            CALLS[N_CALLS] = Some(Call {
+                start: chunked.last_start_seq.0,
+                end: chunked.last_seq.0,
+                last_seq: last_seq.0,
+                rows,
+                ascending,
+                actor: actor_id.0,
+                version: version.0,
+                max_buf_size: chunked.max_buf_size,
+            });
+            N_CALLS += 1;
+        }
+        core::mem::forget(chunked);
+        Ok(())
+    }
+
+    #[cfg(kani)]
+    mod proofs {
+        use super::*;
+        include!("proofs_compose.rs");
     }
 }
